@@ -16,6 +16,7 @@ def run(ctx):
     langs = exported["language_order"]
     findings, _ = core.load_findings("C05")
     known = {(f["signature"]["locale"], f["signature"]["word"]): f["id"] for f in findings}
+    only_norm = {f["id"]: f["signature"]["normalize"] for f in findings if "normalize" in f["signature"]}
     rep = core.replay_cases(ctx)
     if rep:
         langs = [rep[0]["lang"]]
@@ -56,7 +57,14 @@ def run(ctx):
         failing.setdefault((rec["target"], rec["word"]), []).append((rec, run_, verdict, exp))
     for (target, word), lst in sorted(failing.items()):
         fid = known.get((target, word)) or known.get((lst[0][0]["tk"] == "locales" and target.split("-")[0] or target, word))
-        if fid:
+        if fid and fid in only_norm:
+            # a finding recorded for one NORMALIZE value only: failures under the other value are new
+            rest = [x for x in lst if x[0]["norm"] not in only_norm[fid]]
+            ctx.known(fid, len(lst) - len(rest))
+            if not rest:
+                continue
+            lst = rest
+        elif fid:
             ctx.known(fid, len(lst))
             continue
         rec, run_, verdict, exp = lst[0]
